@@ -162,6 +162,7 @@ func (rf *Ref) getProp(root V, name string) (V, *ZErr) {
 type unknownText struct{}
 
 func (rf *Ref) setProp(root V, name string, val V) *ZErr {
+	rf.writes++
 	switch t := root.(type) {
 	case *OV:
 		if _, ok := t.Props[name]; ok {
